@@ -88,6 +88,8 @@ type op struct {
 	Fold   bool `json:"fold,omitempty"`   // a periodic checkpoint is pending when the savepoint is requested
 	Late   bool `json:"late,omitempty"`   // the next DKV checkpoint is saved before the artifact is copied
 	Retain bool `json:"retain,omitempty"` // operators are told to retain only the savepoint's checkpoint before it is taken
+	Over   bool `json:"over,omitempty"`   // (with late) the next checkpoint completes and is published before the savepoint's job file is written
+	Fault  int  `json:"fault,omitempty"`  // the Fault-th copy of a DKV file into the artifact fails with ErrNotFound
 }
 
 func pInt(c *hx.Case, name string, def int) int {
